@@ -45,6 +45,8 @@ type Cache struct {
 
 	autoRefresh bool
 	watch       *watch
+	// the last scan ran out of file descriptors, its result is incomplete
+	scanFailed bool
 }
 
 // WithAutoRefresh returns an option to control automatic Cache refresh.
@@ -173,9 +175,13 @@ func (c *Cache) refresh() error {
 		return true
 	}
 
-	_ = scanSpecDirs(c.specDirs, func(path string, priority int, spec *Spec, err error) error {
+	scanFailed := false
+	scanErr := scanSpecDirs(c.specDirs, func(path string, priority int, spec *Spec, err error) error {
 		path = filepath.Clean(path)
 		if err != nil {
+			if isOutOfDescriptors(err) {
+				scanFailed = true
+			}
 			collectError(fmt.Errorf("failed to load CDI Spec %w", err), path)
 			return nil
 		}
@@ -201,6 +207,10 @@ func (c *Cache) refresh() error {
 		delete(devices, conflict)
 	}
 
+	// A scan which ran out of file descriptors is repeated by the next query in
+	// auto-refresh mode: there might never be an event to tell us to do so.
+	c.scanFailed = scanFailed || isOutOfDescriptors(scanErr)
+
 	c.specs = specs
 	verifPoint("refresh.swap", "", 1)
 	c.devices = devices
@@ -220,7 +230,7 @@ func (c *Cache) refreshIfRequired(force bool) (bool, error) {
 	// We need to refresh if
 	// - it's forced by an explicit call to Refresh() in manual mode
 	// - a missing Spec dir appears (added to watch) in auto-refresh mode
-	if force || (c.autoRefresh && c.watch.update(c.dirErrors)) {
+	if force || (c.autoRefresh && (c.watch.update(c.dirErrors) || c.scanFailed)) {
 		return true, c.refresh()
 	}
 	return false, nil
